@@ -981,3 +981,43 @@ func (c *Ctx) constIntsOf(v ssa.Value) ([]int64, bool) {
 	}
 	return out, true
 }
+
+
+// attributionRoot: findings and reviewed entries are keyed by the function a piece of logic belongs to; when that logic
+// was moved into an unexported helper that has exactly one calling function, it still belongs to that caller. Climbs
+// single-caller chains (at most 3 levels) and returns the function to name.
+func (c *Ctx) attributionRoot(fn *ssa.Function) *ssa.Function {
+	cur := fn
+	for i := 0; i < 3; i++ {
+		top := cur
+		for top.Parent() != nil {
+			top = top.Parent()
+		}
+		if top != cur {
+			return cur // closures are named after their parent already
+		}
+		if token.IsExported(cur.Name()) || cur.Signature.Recv() != nil {
+			return cur
+		}
+		idx := c.callSites()
+		if idx.escapes[cur] {
+			return cur
+		}
+		callers := map[*ssa.Function]bool{}
+		for _, site := range idx.sites[cur] {
+			p := site.Parent()
+			for p.Parent() != nil {
+				p = p.Parent()
+			}
+			callers[p] = true
+		}
+		delete(callers, cur)
+		if len(callers) != 1 {
+			return cur
+		}
+		for f := range callers {
+			cur = f
+		}
+	}
+	return cur
+}
